@@ -512,3 +512,22 @@ func (s *state) storeAt(t types.Type, ref, off string, fld *fieldRef, v Val) {
 		s.wr(name+l.path, l.sort, ref, off, v.S[i])
 	}
 }
+
+// boxed values: scalars live in the per-type box heap B_T, structs and arrays
+// are stored like an object of that type at (box, 0)
+func (s *state) loadBox(t types.Type, box string) Val {
+	z := s.u.m.offConst(0)
+	if isInlineField(t) {
+		return s.loadAt(t, box, z, nil)
+	}
+	return s.loadAt(t, "", "", &fieldRef{heap: "B_" + tname(t), ref: box, off: z})
+}
+
+func (s *state) storeBox(t types.Type, box string, v Val) {
+	z := s.u.m.offConst(0)
+	if isInlineField(t) {
+		s.storeAt(t, box, z, nil, v)
+		return
+	}
+	s.storeAt(t, "", "", &fieldRef{heap: "B_" + tname(t), ref: box, off: z}, v)
+}
